@@ -222,6 +222,36 @@ def proj_heap(slots, cont, meth, reg):
     return {'ops': [proj_c(s) for s in slots], 'cont': pc(cont), 'meth': {'ty': ty, 'v': v}}
 
 
+def caller_edit(st, slots, cont, meth, is_list, last):
+    """one in-place edit of the caller's own objects (spec/SyncSess.tla, HeapStep)"""
+    op = st['op']
+    if op == 'redate':
+        ts = slots[st['slot'] - 1]
+        ts.index = ts.index + pd.Timedelta(days=1)
+    elif op == 'append':
+        slots[st['slot'] - 1].loc[index_of([st['x']])[0]] = 99.0
+    elif op == 'drop':
+        ts = slots[st['slot'] - 1]
+        ts.drop(ts.index[st['p'] - 1], inplace=True)
+    elif op == 'setcell':
+        ts = slots[st['slot'] - 1]
+        if isinstance(ts, pd.Series):
+            ts.iloc[st['p'] - 1] = 77.0
+        else:
+            ts.iloc[st['p'] - 1, :] = 77.0
+    elif op == 'methset':
+        meth[0] = st['v']
+    elif op == 'methclear':
+        del meth[:]
+    elif op == 'contset':
+        key = st['p'] - 1 if is_list else list(cont.keys())[st['p'] - 1]
+        cont[key] = slots[st['n'] - 1]
+    elif op == 'resedit':
+        edit_result(last)
+    else:
+        raise ValueError(op)
+
+
 def call_session(h, steps, form=0, final=None):
     """a session replayed on ONE heap -> one observation: outcome and heap after every step"""
     import pyg_base as pg
@@ -287,31 +317,13 @@ def call_session(h, steps, form=0, final=None):
             else:
                 out = {'kind': 'val', 'v': proj_c(res, reg)}
                 last = res
-        elif op == 'redate':
-            ts = slots[st['slot'] - 1]
-            ts.index = ts.index + pd.Timedelta(days=1)
-        elif op == 'append':
-            slots[st['slot'] - 1].loc[index_of([st['x']])[0]] = 99.0
-        elif op == 'drop':
-            ts = slots[st['slot'] - 1]
-            ts.drop(ts.index[st['p'] - 1], inplace=True)
-        elif op == 'setcell':
-            ts = slots[st['slot'] - 1]
-            if isinstance(ts, pd.Series):
-                ts.iloc[st['p'] - 1] = 77.0
-            else:
-                ts.iloc[st['p'] - 1, :] = 77.0
-        elif op == 'methset':
-            meth[0] = st['v']
-        elif op == 'methclear':
-            del meth[:]
-        elif op == 'contset':
-            key = st['p'] - 1 if is_list else list(cont.keys())[st['p'] - 1]
-            cont[key] = slots[st['n'] - 1]
-        elif op == 'resedit':
-            edit_result(last)
         else:
-            raise ValueError(op)
+            # the caller's own edit; when it cannot be made on the real objects (an earlier call has damaged them: the heap
+            # recorded after that call shows it) the session ends with the steps made so far
+            err, _ = outcome(lambda: caller_edit(st, slots, cont, meth, is_list, last))
+            if err is not None:
+                steps = steps[:n]
+                break
         rec = {'heap': proj_heap(slots, cont, meth, reg)}
         if out is not None:
             rec['out'] = out
